@@ -62,7 +62,10 @@ def calculate_normal_3d(polygon):
         normal[0] += minus[1] * plus[2]
         normal[1] += minus[2] * plus[0]
         normal[2] += minus[0] * plus[1]
-    if near_zero(normal):
+    # The normal has the magnitude of twice the area of the polygon, so for small
+    # polygons it has to be compared with the extent of the polygon.
+    extent = np.max(np.ptp(np.asarray(polygon, dtype=float), axis=0))
+    if np.allclose(normal, 0, atol=1e-8 * min(1.0, extent**2)):
         raise ValueError("No normal found")
     else:
         return normal
